@@ -50,7 +50,7 @@ def build(constants, points, run):
     s1, s2, f1, b1 = m.stock("s1"), m.stock("s2"), m.flow("f1"), m.biflow("b1")
     s1.initial_value = 1.0
     s2.initial_value = 4.0
-    f1.equation = c["c1"] * sd.lookup(sd.time(), "p1")
+    f1.equation = c["c1"] * sd.lookup(sd.time(), "p1") + sd.pulse(m, 3.0, 2.0, 2.0)       # (a pulse: its height is volume / dt of the model that RUNS it)
     b1.equation = c["c2"] - s2 * c["c3"] + sd.lookup(s1, "p2") + total
     s1.equation = f1
     s2.equation = b1
@@ -73,7 +73,7 @@ def expected(settings):
     spec = dict(run=dict(start=repr(float(run[0])), stop=repr(float(run[1])), dt=repr(float(run[2]))), points={k: [list(p) for p in v] for k, v in pts.items()},
                 elements=[dict(name=n, kind="constant", value=float(consts[n])) for n in ("c1", "c2", "c3")] + [
                     dict(name="total", kind="constant", value=1.5),          # the sum of the arrayed converter vec = [1.0, 0.5]
-                    dict(name="f1", kind="flow", eq=["bin", "*", ["ref", "c1"], ["lookup", ["time"], "p1"]]),
+                    dict(name="f1", kind="flow", eq=["bin", "+", ["bin", "*", ["ref", "c1"], ["lookup", ["time"], "p1"]], ["pulse", 3.0, 2.0, 2.0]]),
                     dict(name="b1", kind="biflow", eq=["bin", "+", ["bin", "+", ["bin", "-", ["ref", "c2"], ["bin", "*", ["ref", "s2"], ["ref", "c3"]]], ["lookup", ["ref", "s1"], "p2"]], ["ref", "total"]]),
                     dict(name="s1", kind="stock", init=1.0, eq=["ref", "f1"]), dict(name="s2", kind="stock", init=4.0, eq=["ref", "b1"])])
     table = refsd.Ref(spec).table(conditioning=False)
